@@ -58,7 +58,11 @@ class Parser:
         return t[0] == "call" and t[1].endswith("CommandView::<'a>::instruction") and t[2] == (self.apdu,)
 
     def is_ins(self, t):
-        return t[0] == "proj" and t[2] == UNKNOWN and t[3] == 0 and self.is_instr(t[1])
+        """the instruction byte: the payload of Instruction::Unknown(i), or u8::from(instruction) (iso7816's own conversion, the
+        inverse of its From<u8>; for the eleven instructions iso7816 knows by name it yields their byte, none of which is 1, 2 or 3)"""
+        if t[0] == "proj" and t[2] == UNKNOWN and t[3] == 0 and self.is_instr(t[1]):
+            return True
+        return t[0] == "call" and len(t[2]) == 1 and self.is_instr(t[2][0]) and t[1].endswith("::from") and "Instruction" in t[1] and "u8" in t[1]
 
     def is_cb(self, t):
         return t[0] == "call" and (t[1].startswith(CB_REF) or t[1] in self.classifiers) and t[2] == (("field", self.apdu, "p1"),)
@@ -446,7 +450,7 @@ def run(ctx):
                        "the outcome of ControlByte::try_from(p1) and the complete grid (data length 0..=1100) x (byte 64: 0..=255); on every combination the admitting path must return what the U2F raw "
                        "message format prescribes, with fields from the prescribed sub-slices; bounds of every slice operation checked on the region admitted before it. No execution of the parser, no solver.")
     ctx.rule = "obligation = (path, clause) | (instruction class x control-byte outcome x grid) | (slice operation), per configuration"
-    ctx.trusted = ["iso7816 0.1.4: CommandView accessors, Lc/Le framing, Instruction::from (1, 2, 3 are Unknown(_))", "core slice indexing / split_at / get / TryFrom<&[T]> for &[T; N] semantics"]
+    ctx.trusted = ["iso7816 0.1.4: CommandView accessors, Lc/Le framing, Instruction::from (1, 2, 3 are Unknown(_)) and its inverse From<Instruction> for u8", "core slice indexing / split_at / get / TryFrom<&[T]> for &[T; N] semantics"]
     ctx.assumptions = ["every constant the parser compares the data length with is < 1100 - 2*256 (checked: larger constants make the analysis report the path as unread)"]
     from . import ftable as FT
     for cfg, F in ctx.facts.items():
